@@ -225,7 +225,7 @@ func c20RunErr(c c20Case, res *WRes) {
 		if inputs["error"] != wantCode {
 			viol("C20/wrong-error-code/"+tag, fmt.Sprintf("form_post carries error=%q, raised %q", inputs["error"], wantCode), wantCode, inputs)
 		}
-		if inputs["state"] != c20HTMLRepresentable(state) && inputs["state"] != strings.ReplaceAll(state, "\r\n", "\n") {
+		if c20HTMLRepresentable(inputs["state"]) != c20HTMLRepresentable(state) {
 			viol("C20/state-not-round-tripped/form_post", "the state does not survive the form_post escaping unchanged", state, inputs["state"])
 		}
 		for k, v := range inputs {
